@@ -80,7 +80,7 @@ func writeFramed(conn net.Conn, raw []byte) error {
 
 // weird returns a malformed field value and its description.
 func weird(rng *rand.Rand) (any, string) {
-	sizes := []int{0, 1, 255, 256, 300, 5000, 9990, 10001, 16000, 17000, 30000, 45000, 60000}
+	sizes := []int{0, 1, 8, 15, 16, 17, 24, 31, 32, 33, 64, 255, 256, 300, 5000, 9990, 10001, 16000, 17000, 30000, 45000, 60000}
 	n := sizes[rng.Intn(len(sizes))]
 	switch rng.Intn(12) {
 	case 0:
@@ -134,6 +134,12 @@ var amplifiers = []struct {
 	{make([]byte, 64000), "64000 zero bytes"},
 	{strings.Repeat("%v", 5000), "text of 5000 format verbs"},
 	{"", "empty text"},
+	// sizes around the limits the handshake itself names (challenge: at least 16, normally 32 bytes; X25519 keys: 32)
+	{make([]byte, 15), "15 zero bytes"},
+	{make([]byte, 16), "16 zero bytes"},
+	{[]byte("twenty bytes of text"), "20 bytes"},
+	{make([]byte, 31), "31 zero bytes"},
+	{make([]byte, 33), "33 zero bytes"},
 }
 
 // linkSigned runs one handshake of a scripted, correctly signing participant with one malformed field; the first
